@@ -91,6 +91,8 @@ CaseStart ==
                               THEN {Tag("C03", "STREAMINFO rate/channels/width differ from the source")} ELSE {}) \cup
                            (IF Pc("C03") /\ ~(h.totHi = 0 /\ h.totLo = cs.n)
                               THEN {Tag("C03", "STREAMINFO total samples differ from the samples consumed")} ELSE {}) \cup
+                           (IF Pc("C05") /\ ~cs.modes_equal
+                              THEN {Tag("C05", "single-thread, multi-thread and frame-level assembly of the same input give different bytes")} ELSE {}) \cup
                            (IF Pc("C14") /\ ~cs.twin_equal
                               THEN {Tag("C14", "integer delivery and packed-byte delivery of the same audio give different streams")} ELSE {}) \cup
                            (IF Pc("C08") /\ cs.count # 8 * Len(b)
